@@ -40,7 +40,8 @@ type Scenario struct {
 	PanicIcept        int // index of an interceptor that panics (-1 none)
 	Sync              bool
 	LongPause         bool
-	GrowBy            int // > 0: the last interceptor also pads the value by this many bytes (a message may outgrow MaxMessageBytes)
+	GrowBy            int  // > 0: the last interceptor also pads the value by this many bytes (a message may outgrow MaxMessageBytes)
+	SyncCloseMid      bool // sync producer: Close is called while the calls of the last burst (one goroutine per message) are pending
 	Msgs              []Msg
 	Faults            map[int]sarama.VerifSimFault // by global produce request number
 	MetaFailAt        map[int]bool
@@ -90,6 +91,7 @@ type Result struct {
 	Events     []Event
 	closeNow   int32 // set by the hook sink when CloseAtEvent is reached
 	CloseHang  bool
+	SyncStuck  int // sync producer: calls that never returned after Close was called while they were pending
 	ClosedOK   bool
 	SendPanic  string
 	GoPanic    string // a goroutine of the producer panicked (sarama.PanicHandler)
@@ -277,6 +279,9 @@ func Gen(seed uint64, focus string) *Scenario {
 	if focus == "SYNC" || (focus == "C01" && r.Chance(1, 6)) || (focus == "C04" && r.Chance(1, 8)) {
 		sc.Sync = true
 		sc.CloseAfter = -1
+		if r.Chance(1, 3) {
+			sc.SyncCloseMid = true
+		}
 	}
 	if focus == "C16" || r.Chance(1, 6) {
 		// broker latency with tight limits: batches accumulate while a request is in flight
@@ -680,6 +685,67 @@ func runSync(sc *Scenario, cfg *sarama.Config, sim *sarama.VerifSim, msgs []*sar
 		for _, m := range batch {
 			res.Submitted = append(res.Submitted, m.Metadata.(int))
 		}
+		if sc.SyncCloseMid && i+n >= len(msgs) && len(batch) >= 2 {
+			// last burst: one caller per message, Close from another goroutine while they are pending; every call must
+			// return with the outcome of its own message and Close must return
+			type ret struct {
+				id  int
+				err error
+				bad string
+			}
+			rc := make(chan ret, len(batch))
+			for _, m := range batch {
+				m := m
+				go func() {
+					defer func() {
+						if r := recover(); r != nil {
+							rc <- ret{m.Metadata.(int), nil, fmt.Sprint("panic: ", r)}
+						}
+					}()
+					_, _, err := p.SendMessage(m)
+					rc <- ret{m.Metadata.(int), err, ""}
+				}()
+			}
+			time.Sleep(time.Duration(5+sc.LatencyMs/2) * time.Millisecond)
+			cch := make(chan error, 1)
+			go func() { cch <- p.Close() }()
+			deadline := time.After(8 * time.Second)
+			got := map[int]bool{}
+			for len(got) < len(batch) {
+				select {
+				case r := <-rc:
+					got[r.id] = true
+					if r.bad != "" {
+						// the harness submitted after the producer had shut down (a send on the closed input): not judged
+						res.NewErr = "sync close-mid: " + r.bad
+						return
+					}
+					var mm *sarama.ProducerMessage
+					for _, m := range batch {
+						if m.Metadata.(int) == r.id {
+							mm = m
+						}
+					}
+					o, _ := outcomeOf(mm, true, nil)
+					if r.err != nil {
+						o.Ok, o.Err = false, r.err.Error()
+					}
+					o.At = len(res.Outcomes)
+					res.Outcomes = append(res.Outcomes, o)
+				case <-deadline:
+					res.CloseHang = true
+					res.SyncStuck = len(batch) - len(got)
+					return
+				}
+			}
+			select {
+			case <-cch:
+				res.ClosedOK = true
+			case <-time.After(8 * time.Second):
+				res.CloseHang = true
+			}
+			return
+		}
 		ch := make(chan error, 1)
 		go func() {
 			if len(batch) == 1 {
@@ -794,6 +860,9 @@ func Check(res *Result) []Fail {
 	}
 	if res.SendPanic != "" {
 		add("C12:send-panicked-or-blocked", "%s", res.SendPanic)
+	}
+	if res.SyncStuck > 0 {
+		add("C01:sync-call-never-returned", "%d SendMessage calls that were pending when Close was called never returned", res.SyncStuck)
 	}
 	if res.CloseHang {
 		hsig := "C12:close-hang"
